@@ -304,6 +304,17 @@ func eciesPub(label string) *ecies.PublicKey {
 func (w *govWorld) txCheckIn() *txInfo {
 	k := w.anyKey("checkin-sender")
 	vk := w.valKey(k)
+	if w.r.C.Chance(60, "checkin-bad-encryption-key") {
+		// a well-formed validator key with an encryption key that is no curve point: refused,
+		// and a refused check-in registers nothing
+		enc := w.r.C.Bytes(33, "bad-enc-key")
+		enc[0] |= 0x04
+		msg := &shmsg.Message{Payload: &shmsg.Message_CheckIn{CheckIn: &shmsg.CheckIn{ValidatorPublicKey: vk, EncryptionPublicKey: enc}}}
+		ti := w.mk(k, msg, "checkin-badkey", fmt.Sprintf("val=%x enc=garbage", vk[:4]))
+		ti.ValKey = vk
+		ti.StructInvalid = true
+		return ti
+	}
 	msg := shmsg.NewCheckIn(vk, eciesPub(k.Name))
 	ti := w.mk(k, msg, "checkin", fmt.Sprintf("val=%x", vk[:4]))
 	ti.ValKey = vk
